@@ -188,6 +188,10 @@ def applyOp (st : St) (seq : String) (op : Op) (obs : Option String) (outcome : 
     let ok := outcome == "ok"
     let ext := if extOkB op then [] else [s!"MON\t{seq}\text_input"]
     let m := step p op
+    -- the second-generation closes are also accepted in their repaired form (notes/C13.md): a repaired tree checks clean
+    let m := match stepRepaired p op with
+      | some r' => if ok && norm r' == norm r && (m.map norm) != some (norm r) then some r' else m
+      | none => m
     let dOutcome := if m.isSome != ok then [s!"DIFF\t{seq}\toutcome model={if m.isSome then "ok" else "rejected"} impl={outcome}"] else []
     let expect := if ok then m.getD p else p     -- a rejected message must leave the books untouched
     let dState := if norm expect == norm r then [] else
@@ -206,7 +210,9 @@ def applyOp (st : St) (seq : String) (op : Op) (obs : Option String) (outcome : 
       (if ok && !monWithdrawExact p r op then [s!"MON\t{seq}\twithdraw_exact"] else []) ++
       (if ok && !monNetFeesDelta p r op then [s!"MON\t{seq}\tnetfees_delta"] else []) ++
       (stateMonitors p r).map fun n => s!"MON\t{seq}\t{n}"
-    ({ st with s := r }, ext ++ dOutcome ++ dState ++ dRw ++ mons)
+    -- accounts outside the projection (auction escrows) keep the balance the model computed
+    let carried := (dedupKeys expect.bank).filter fun q => !compared q.1.1
+    ({ st with s := { r with bank := r.bank ++ carried } }, ext ++ dOutcome ++ dState ++ dRw ++ mons)
 
 def nat3 (a b c : String) : Option (Nat × Nat × Nat) := do pure (← a.toNat?, ← b.toNat?, ← c.toNat?)
 
@@ -220,7 +226,9 @@ def handle (st : St) (seq : String) (f : List String) : St × List String :=
   | ["lk.sync", ss] =>
     match parseState st.s ss with
     | none => bad
-    | some r => ({ st with s := r }, (stateMonitors st.s r).map fun n => s!"MON\t{seq}\t{n}")
+    | some r =>
+      let carried := (dedupKeys st.s.bank).filter fun q => !compared q.1.1
+      ({ st with s := { r with bank := r.bank ++ carried } }, (stateMonitors st.s r).map fun n => s!"MON\t{seq}\t{n}")
   | ["lk.fund", u, a, x, o, ss] =>
     match u.toNat?, a.toNat?, x.toInt? with
     | some u, some a, some x => applyOp st seq (.fund u a x) none o ss
